@@ -209,7 +209,7 @@ def field_desc(p, n, force_ext=False):
 
 
 def desc_card(desc):
-    t = desc.split(":")
+    t = desc.split(",")[0].split(":")
     if t[0] == "P":
         return int(t[1])
     if t[0] == "B":
@@ -219,7 +219,7 @@ def desc_card(desc):
 
 def rand_elem(desc, rng, special=0.3):
     """canonical wire encoding of a random element; extremes with probability `special`"""
-    t = desc.split(":")
+    t = desc.split(",")[0].split(":")
     if t[0] == "P":
         p = int(t[1])
         if rng.random() < special:
